@@ -123,12 +123,15 @@ func vh_C14_L2_deferred_reset() {
 	ids := [][]uint16{{4}, {9, 4}, {4, 9}, {9, 4, 11}}[vPick(4)]
 	req := &paramOutgoingResetRequest{reconfigRequestSequenceNumber: nondetU32(), senderLastTSN: last, streamIdentifiers: ids}
 	s4 := a.streams[4]
+	nReaders := 1 + vPick(2)
+	vCondPark(s4.readNotifier, nReaders) // readers blocked on the stream when the reset arrives
 	vassert(vDeliver(a, &chunkReconfig{paramA: req}) == nil, "RECONFIG is never fatal")
 	due := !vBefore(cum, last) // senderLastTSN <= cumulative TSN (serially)
 	_, still := a.streams[4]
 	vassert(still == !due, "the reset is performed exactly when every TSN up to the sender's last TSN has arrived")
 	if due {
 		vassert(s4.readErr == io.EOF, "the reader gets end-of-file")
+		vassert(vCondParked(s4.readNotifier) == 0, "every reader blocked on the stream is woken by the reset")
 		vassert(len(a.reconfigRequests) == 0, "a performed request is forgotten")
 	} else {
 		vassert(s4.readErr == nil, "no end-of-file before the data")
